@@ -19,6 +19,11 @@ STRENGTHENED = {
  "C15-2": "missed at first (needs a prefix and a two-token second phase); family class extended",
  "C16-2": "missed at first (name unknown to the RFC 8011 table); extended registry consulted by the by-name rule",
  "C18-2": "missed at first (only 0x040a / 0x0503 were scripted); statuses with a zero low byte added",
+ "C01-3": "strengthened from the agent's description before the first run (the previous space had no attribute NAMED like the five special names): family B' special-names",
+ "C02-3": "strengthened before the first run (needs a three-token unit: member name, begin collection, group delimiter): |u| = 3 deep-screen families",
+ "C06-3": "strengthened before the first run (no payload above 70 000 bytes in C06): 1 MiB + 64 KiB + 1 payload",
+ "C08-3": "strengthened before the first run (the async consumer always retried with the same buffer): buffer-switching consumer",
+ "C09-3": "strengthened before the first run: base program with a second operation group; C19 caught the same change from the start",
  "C18-1": "missed by C18 at first (caught by C17 from the start); C18 now scripts all 10 blocking reasons, scalar and inside a set",
 }
 def main():
